@@ -166,6 +166,41 @@ INFO = {
  "C19_h": ("same newVLenArray aggregate slip as C03_h, seen through String()", "String16 values x, yyy, zz"),
  "C20_g": ("encode.Bytes.Encode zero-pads short values by appending to the caller's slice", "values that are sub-slices with spare capacity of one arena"),
  "C20_h": ("encodeValues returns the caller's [][]byte for encode.Bytes and newToKeep nils dropped records", "[][]byte values, encode.Bytes, dedup on, adjacent equal values"),
+ # ---- round 5 (j: two cooperating sites; k: multi-step sequence or unusual input)
+ "C01_j": ("vars.Complete = LeafPrefixes != nil dispatches GetID to a loop that assumes every run is a stored inner prefix", "Opt{LeafPrefix:true} without InnerPrefix and a key whose path crosses a step"),
+ "C01_k": ("TypeEncoder.Decode fast path hands plain integers to the little-endian decoders, Encode honours m.Endian", "a TypeEncoder built with binary.BigEndian"),
+ "C02_j": ("newSlim stores a big-mode node as 17-bit when de-duplication leaves <=10 labels; addInner/build count big nodes by bitmap size", "dedup on, >10 distinct bytes among all keys but <=10 kept, followed by a dense subset"),
+ "C02_k": ("String16 length header read by a helper returning int(b[0]<<8 | b[1])", "String16 values of 256 bytes or more"),
+ "C03_j": ("NewSlimTrie records maxKeyLen, GetID rejects longer keys; Unmarshal/Reset never refresh it", "a trie built from short keys reused as the receiver of Unmarshal of a stream with longer keys"),
+ "C03_k": ("a subset with one retained key collapses to a leaf that takes index and prefix from keys[s], which may be a dropped key", "Complete, default dedup, a run of equal values crossing a branch"),
+ "C04_j": ("iterator takes the leaf ordinal from qr.ithLeaf; getLeafPrefix returns before ranking the leaf when no leaf prefixes are stored", "Complete trie in which no leaf carries a leaf prefix, scan with values"),
+ "C04_k": ("inner-prefix conversion re-gated from <0.5.12 to <0.5.11", "a 0.5.11 stream"),
+ "C05_j": ("Stat prefers a keyCnt recorded by NewSlimTrie = len(keys); cleared by Unmarshal/Reset", "dedup folds keys: built and loaded Stat differ"),
+ "C05_k": ("Unmarshal checks Leaves.FixedSize against the receiver's encoder size and returns ErrIncompatible", "String16 values that all have one length"),
+ "C06_j": ("InnerPrefixes.PresenceBM indexed r64 with a load-time re-index only when len(RankIndex) != len(Words)", "0.5.10/0.5.11 stream with 65-128 inner nodes"),
+ "C06_k": ("prefix conversion composed in a 64-byte stack buffer under pl <= len(small), needs pl+1", "a 0.5.10/0.5.11 stream with an inner prefix of exactly 64 bytes"),
+ "C07_j": ("emptiness cached in vars.Empty, lookups test st.isEmpty(); rejected loads replace inner but not vars", "instance holding data, rejected Unmarshal, then any lookup panics"),
+ "C07_k": ("empty-body fast path right after the version gate (BodySize == 0: init and return)", "a legacy three-section stream whose first section is empty, cut anywhere after it"),
+ "C08_j": ("order check moved into checkArgs(), which returns early when values == nil", "unsorted keys with values == nil"),
+ "C08_k": ("leafPrefixLens narrowed to []uint16", "LeafPrefix/Complete and a key tail of 65536 bytes or more"),
+ "C09_j": ("load fix-ups run on every stream; a prefix is converted only if isBitstr() says it is not converted yet (ambiguous sniff)", "0.5.10/0.5.11 InnerPrefix stream whose shared prefix ends in a mask-like byte"),
+ "C09_k": ("Unmarshal validates the header first and decodes into the existing *Slim", "a SlimTrie copied by value (SlimIndex) and a direct Unmarshal on one handle"),
+ "C10_j": ("TypeEncoder Encode/Decode fast paths for unsigned ints: Decode always little-endian", "TypeEncoder with binary.BigEndian"),
+ "C10_k": ("cmpLeafPrefix compares the tail with for i := range tail (runes)", "multi-byte UTF-8 in the leaf tail, query differing in a continuation byte"),
+ "C11_j": ("per-trie querySession template with a scratch buffer; sessions are value copies sharing its backing array", "two goroutines in Search/RangeGet/scan on a trie with leaf prefixes"),
+ "C11_k": ("iterators record the deepest stack in vars.ScanDepth", "a scan deeper than twice the path to its first key; concurrent readers"),
+ "C14_j": ("typed getters share getLeafInt() returning -1 for not found; GetI64 passes size 8", "a stored int64 value of -1"),
+ "C14_k": ("typed getters read st.vars.LeafBytes before GetID", "Reset or a refused proto.Unmarshal, then a typed getter panics"),
+ "C15_j": ("storeInt/loadInt pick the width from len(b); Decode calls loadInt before slicing b to Size", "big-endian TypeEncoder and a remaining buffer of 2/4/8 bytes longer than the value"),
+ "C15_k": ("hand-written decodeValue skips blank struct fields without advancing the offset", "a struct with a blank _ field"),
+ "C16_j": ("Base caches eltSize where the encoder is installed; Base.Get uses it", "&array.Array{} with EltEncoder assigned directly, filled by proto.Unmarshal"),
+ "C16_k": ("InitIndex sets a dense flag and GetBytes skips the bitmap when set", "dense array, then proto.Unmarshal of a sparse array into the same object"),
+ "C18_j": ("indexit(r128) always appends the closing total; initLevels reads the node total from RankIndex[last]", "a stream written under the old index convention with an odd number of label words"),
+ "C18_k": ("version dispatch as a switch with the upgrade case written >=0.5.10 <0.5.11", "a 0.5.11 stream loads as an empty trie"),
+ "C19_j": ("build() trims trailing zero entries of ShortTable; getNode indexes it with bm & (len-1)", "ShortSize > 0 and a trimmed length that is not a power of two"),
+ "C19_k": ("legacy presence bitmap through newDenseBM(): last word = Mask[n&63]", "0.5.10/0.5.11 stream whose leaf count is a multiple of 64"),
+ "C20_j": ("Marshal assembles the stream by appending to a package-level header prefix with spare capacity", "a stream of at most 64 bytes (empty trie): the shared array is handed out"),
+ "C20_k": ("per-trie proto.Buffer: Unmarshal SetBuf()s the input, Marshal Reset()s and writes into it", "legacy stream in a sub-slice of a larger buffer, then Marshal"),
 }
 
 def props():
